@@ -36,6 +36,7 @@ structure StoreSt where
   everSeen : List (String × String) := []
   slotInfo : List (String × (String × String × String)) := []   -- slot ↦ (kind, parent slot, name token), from mk
   linkObs : List (String × List String) := []      -- link-container answers obtained through handles since the last mutation (query text ↦ answer)
+  goneIds : List String := []                     -- ids that vanished between the dumps around the last delete (victim and everything below it)
   lastDeleted : Option String := none             -- the slot whose entity the last mutating op deleted (answer `ok 1`)         -- id ↦ "kind name created" as first observed
 
 /-- props family (C14): the property model and the history of calls the IMPLEMENTATION accepted (most recent first) -/
